@@ -232,6 +232,7 @@ def series_of(case):
 
 class H(Harness):
     ID = 'C17'
+    ANCHOR_FILES = ['epydemic/gf/discrete_gf.py', 'epydemic/gf/continuous_gf.py', 'epydemic/gf/standard_gfs.py', 'epydemic/gf/interface.py']
     LEVEL = 'proof (partial)'
     TIE_IMPORT = 'From EpyV Require Import Model.GF Model.GFNet Tie.C17.'
     CHECK_FN = 'EpyV.Tie.C17.check_case'
@@ -253,14 +254,16 @@ class H(Harness):
 
     @property
     def RULE(self):
-        dev = '; '.join('%s: relative %.3g / on the contour-mean scale %.3g at %s' % (k, d['rel'], d['abs'], d['at'])
-                        for k, d in sorted(self.maxdev.items()))
+        dev = '; '.join('%s: %.3g of the contour-mean scale at %s, relative %.3g at %s (among coefficients above 1e-9 of that scale)'
+                        % (k, d['abs'], d['at'], d['rel'], d['rel_at']) for k, d in sorted(self.maxdev.items()))
         return self._RULE + ' || largest deviation of a coefficient from the independently computed Taylor value in this run, per family: ' + (dev or 'none asked')
 
     def _note_dev(self, kind, rel, absm, at):
-        d = self.maxdev.get(kind)
-        if d is None or absm > d['abs']:
-            self.maxdev[kind] = {'rel': float(rel), 'abs': float(absm), 'at': at}
+        d = self.maxdev.setdefault(kind, {'rel': 0.0, 'rel_at': '-', 'abs': 0.0, 'at': '-'})
+        if absm > d['abs']:
+            d['abs'], d['at'] = float(absm), at
+        if rel is not None and rel > d['rel']:
+            d['rel'], d['rel_at'] = float(rel), at
 
     TRUSTED = ['Coq 8.16.1 kernel incl. vm_compute', 'MathComp 1.15 (fieldType, bigop, poly, algC) for the contour theorems',
                'harness/c17.py and vlib', 'networkx Graph.degree()/order()/edges() (a self-loop counts twice in its node\'s degree)',
@@ -272,12 +275,12 @@ class H(Harness):
 
     def gen_cases(self, tier, rnd, n):
         out = []
-        n_plc = 10 if tier == 'quick' else 150
+        n_plc = 8 if tier == 'quick' else 150
         n_er = n // 4
         n_poly = n // 5
         n_geo = n // 16
         for _ in range(n_plc):
-            out.append(plc_case(rnd, fast=(rnd.random() < (0.7 if tier == 'quick' else 0.4))))
+            out.append(plc_case(rnd, fast=(rnd.random() < (0.75 if tier == 'quick' else 0.4))))
         for _ in range(n_er):
             out.append(er_case(rnd))
         for k in range(n_poly):
@@ -391,7 +394,7 @@ class H(Harness):
             err_t = abs(got - taylor)
             in_range = n <= 60 and (kind != 'poly' or len(case['coeffs']) <= 81)
             if in_range:
-                self._note_dev(kind, err_t / abs(taylor) if taylor != 0 else 0, err_t / scale,
+                self._note_dev(kind, err_t / abs(taylor) if abs(taylor) > 1e-9 * scale else None, err_t / scale,
                                '%s order=%d i=%d' % ({k: case[k] for k in ('kmean', 'exponent', 'cutoff', 'q') if k in case}, order, i))
             ok_t = err_t <= REL * abs(taylor) or err_t <= ABS * scale
             ok_c = abs(got - closed) <= TIE * scale
@@ -406,7 +409,8 @@ class H(Harness):
             want, closed, scale = scm * want, scm * closed, abs(scm) * scale
             err = abs(got - want)
             what = '%s.dx(%d)(%r) = %r, derivative value %s, closed form %s' % (kind, order, x, got, MP.nstr(want, 12), MP.nstr(closed, 12))
-            if not (err <= REL * abs(want) or err <= 1e-12 * scale):
+            in_range = kind != 'poly' or len(case['coeffs']) <= 81
+            if in_range and not (err <= REL * abs(want) or err <= 1e-12 * scale):
                 v.append({'signature': ('contour-aliasing-value:' if abs(got - closed) <= TIE * scale else 'analytic-value:') + kind, 'detail': what})
             elif abs(got - closed) > TIE * scale:
                 v.append({'signature': 'tie-contour-closed-form-value:' + kind, 'detail': what, 'kind': 'harness'})
